@@ -114,6 +114,57 @@ def w_cov(case):
         viol.append({'sub': 'psi', 'message': 'individual-parameter transform '
                      'differs from the underlying model at vartheta_i (%s)' % lab,
                      'expected': exp_psi, 'observed': got_psi, 'behaviour': 'psi'})
+    # sampling: sample i is a draw of the underlying model at vartheta_i of row i.
+    # Under a constant script (every base variate equal) a draw is a deterministic
+    # function of vartheta_i, so the row order is observable; rows are interleaved
+    # repeats in descending order.
+    from ..env.rngseam import Seam, Script
+    rows = [cov[(n_ids - 1 - j) % n_ids] * (1.0 if j < n_ids else 1.5)
+            for j in range(2 * n_ids)]
+    rows = np.array(rows + rows[:1])
+
+    def const(stream, index, kind, n=None):
+        return 0.45 if kind == 'z' else (0.6 if kind == 'u' else 0)
+    with Seam(Script(base=const)):
+        smp = np.asarray(m.sample(top_arg(), n_samples=len(rows), seed=3,
+                                  covariates=rows.copy()), dtype=float)
+        th_s = np.real(rp.vartheta(spec, top, rows, len(rows)))
+        exp_s = np.array([np.asarray(under.sample(
+            th_s[i].flatten(), n_samples=1, seed=3), dtype=float)[0]
+            for i in range(len(rows))])
+    ntr += 1 + len(rows)
+    if smp.shape != exp_s.shape or not tol.allclose(smp, exp_s):
+        viol.append({'sub': 'sample_rows', 'message': 'sample i is not a draw of the '
+                     'underlying model at vartheta_i of covariate row i (%s)' % lab,
+                     'expected': exp_s, 'observed': smp,
+                     'behaviour': 'sample_rows'})
+    # the caller re-uses and modifies its arrays in place between evaluations: the
+    # same array objects, first with covariates zeroed, then with a parameter moved
+    cov_obj, top_obj = cov.copy(), top.copy()
+    m.compute_log_likelihood(top_obj, obs.copy(), cov_obj)
+    m.compute_individual_parameters(top_obj, obs.copy(), cov_obj)
+    cov_obj[:] = 0
+    z_ll = m.compute_log_likelihood(top_obj, obs.copy(), cov_obj)
+    fresh = chi.CovariatePopulationModel(
+        popbuild.build(inner, None), chi.LinearCovariateModel(n_cov=n_cov))
+    apply_history(fresh, case['history'])
+    fresh.set_n_ids(n_ids)
+    e_ll = fresh.compute_log_likelihood(top.copy(), obs.copy(), np.zeros_like(cov))
+    top_obj[-1] += 0.05
+    cov_obj[:] = cov
+    t_ll = m.compute_log_likelihood(top_obj, obs.copy(), cov_obj)
+    t_psi = m.compute_individual_parameters(top_obj, obs.copy(), cov_obj)
+    e2_ll = fresh.compute_log_likelihood(top_obj.copy(), obs.copy(), cov.copy())
+    e2_psi = fresh.compute_individual_parameters(top_obj.copy(), obs.copy(),
+                                                 cov.copy())
+    ntr += 7
+    if not tol.close(z_ll, e_ll) or not tol.close(t_ll, e2_ll) or \
+            not tol.allclose(t_psi, e2_psi):
+        viol.append({'sub': 'inplace', 'message': 'after the caller changed its '
+                     'covariate / parameter arrays in place, the evaluation with '
+                     'the same array objects does not use the new values (%s)'
+                     % lab, 'expected': [e_ll, e2_ll], 'observed': [z_ll, t_ll],
+                     'behaviour': 'inplace'})
     # reference agrees as well (ties the reference to the real underlying model)
     ref_ll = float(np.real(rp.logpop(spec, top, obs, cov)))
     if np.isfinite(exp_ll) and not tol.close(ref_ll, exp_ll):
